@@ -97,7 +97,8 @@ func setStructToForm(q url.Values, val reflect.Value) {
 			a = make([]string, 0, 1)
 		}
 		if structField.Kind() == reflect.Slice || structField.Kind() == reflect.Array {
-			for i := structField.Len() - 1; i >= 0; i-- {
+			// ascending, as mapFormToStruct reads them back
+			for i := 0; i < structField.Len(); i++ {
 				if s, ok := formatProperType(structField.Index(i)); ok {
 					a = append(a, s)
 				}
